@@ -74,7 +74,10 @@ def scramble(G, rng, ids=None):
     order = nodes[:]
     rng.shuffle(order)
     for v in order:
-        H.add_node(mp[v], **dict(G.nodes[v]))
+        d = dict(G.nodes[v])
+        if "atom_map" in d:
+            d["atom_map"] = mp[v] if isinstance(mp[v], int) else d["atom_map"]  # uncovered attribute follows the numbering
+        H.add_node(mp[v], **d)
     es = list(G.edges(data=True))
     rng.shuffle(es)
     for u, v, d in es:
@@ -90,7 +93,10 @@ def permuted(G, perm_ids):
     mp = dict(zip(nodes, perm_ids))
     H = nx.Graph()
     for v in sorted(nodes, key=lambda x: mp[x]):
-        H.add_node(mp[v], **dict(G.nodes[v]))
+        d = dict(G.nodes[v])
+        if "atom_map" in d:
+            d["atom_map"] = mp[v]  # uncovered attribute follows the numbering, as in real data
+        H.add_node(mp[v], **d)
     for u, v, d in G.edges(data=True):
         H.add_edge(mp[u], mp[v], **dict(d))
     return H
@@ -161,6 +167,11 @@ def symmetric_families():
     fam["cube"] = nx.hypercube_graph(3)
     fam["2xC3"] = nx.disjoint_union(nx.cycle_graph(3), nx.cycle_graph(3))
     fam["C3+C4"] = nx.disjoint_union(nx.cycle_graph(3), nx.cycle_graph(4))
+    fam["C3+C5"] = nx.disjoint_union(nx.cycle_graph(3), nx.cycle_graph(5))
+    fam["C4+C5"] = nx.disjoint_union(nx.cycle_graph(4), nx.cycle_graph(5))
+    fam["C6+2xC3"] = nx.disjoint_union(nx.cycle_graph(6), nx.disjoint_union(nx.cycle_graph(3), nx.cycle_graph(3)))
+    fam["prism+K33"] = nx.disjoint_union(nx.circular_ladder_graph(3), nx.complete_bipartite_graph(3, 3))
+    fam["co(C3+C4)"] = nx.complement(nx.disjoint_union(nx.cycle_graph(3), nx.cycle_graph(4)))
     fam["K4"] = nx.complete_graph(4)
     fam["petersen"] = nx.petersen_graph()
     fam["prism"] = nx.circular_ladder_graph(3)
@@ -192,14 +203,20 @@ def gdigest(G):
 
 
 def describe(G):
-    return {"nodes": [[n, d.get("element"), d.get("hcount"), d.get("charge")] for n, d in G.nodes(data=True)],
-            "edges": [[u, v, d.get("order")] for u, v, d in G.edges(data=True)]}
+    return {"nodes": [[n, d.get("element"), d.get("hcount"), d.get("charge"), bool(d.get("aromatic", False))]
+                      for n, d in G.nodes(data=True)],
+            "edges": [[u, v, d.get("order"), d.get("standard_order", 0.0)] for u, v, d in G.edges(data=True)]}
 
 
 def from_desc(desc, directed=False):
     G = nx.Graph()
-    for n, el, hc, ch in desc["nodes"]:
-        G.add_node(n, element=el, hcount=hc, charge=ch, aromatic=False, atom_map=n, neighbors=[])
-    for u, v, o in desc["edges"]:
-        G.add_edge(u, v, order=o, standard_order=0.0)
+    for row in desc["nodes"]:
+        n, el, hc, ch = row[:4]
+        G.add_node(n, element=el, hcount=hc, charge=ch, aromatic=bool(row[4]) if len(row) > 4 else False,
+                   atom_map=n, neighbors=[])
+    for row in desc["edges"]:
+        u, v, o = row[:3]
+        if isinstance(o, list):
+            o = tuple(o)
+        G.add_edge(u, v, order=o, standard_order=row[3] if len(row) > 3 else 0.0)
     return G
